@@ -268,6 +268,7 @@ func streamC07(env *runEnv) {
 			packet(ptData, dataBody([]byte("<a>"))),
 		}
 		var resA tunnelResult
+		cookieB := visitCookie(srv.inst) // B has been here before A arrives
 		a, errA := openTunnel(srv.inst, tunnelScript{transport: "ws", id: idA})
 		if errA != nil {
 			resA.err = errA.Error()
@@ -281,7 +282,7 @@ func streamC07(env *runEnv) {
 			for _, p := range pkA[:3] {
 				step(a, p)
 			}
-			if b, errB := openTunnel(srv.inst, tunnelScript{transport: "ws", id: idB, returnCookie: true}); errB == nil {
+			if b, errB := openTunnel(srv.inst, tunnelScript{transport: "ws", id: idB, cookieHdr: cookieB}); errB == nil {
 				b.send(packet(ptHandshake, handshakeBody(1, 0, 0, 2)))
 				b.recv(3 * time.Second)
 				b.send(packet(ptTunnelCreate, tunnelCreateBody(0, "ok|identB|"+bb.addr, true)))
